@@ -230,3 +230,42 @@ Lemma edge_triangles_example :
   add_edge_triangles (mkEp 0 0 1 1 false false) (mkEp 2 2 3 3 false false) = [(1, 0, 2)%Z; (1, 2, 3)%Z]
   /\ add_edge_triangles (mkEp 0 0 0 0 false false) (mkEp 0 0 1 1 false false) = [].
 Proof. split; vm_compute; reflexivity. Qed.
+
+(* ------------------------------------------------------------------ miter-clip corners *)
+(* side point n0 = (a,b) (non-zero); the miter tip T = (p,q) and the clipped corner i = (x,y) both lie on the
+   side line {v : v.n0 = n0.n0}; the join is not straight (T is not n0 itself); the clip line is not beyond
+   the tip (i.T <= T.T) and not before the side point (n0.T <= i.T, true whenever the miter limit is >= 1).
+   Then the corner is not farther from the join than the tip. *)
+Lemma clip_corner_within_tip : forall a b p q x y : Q,
+  0 < a * a + b * b ->
+  p * a + q * b == a * a + b * b ->
+  x * a + y * b == a * a + b * b ->
+  ~ (a * q - b * p == 0) ->
+  x * p + y * q <= p * p + q * q ->
+  a * p + b * q <= x * p + y * q ->
+  x * x + y * y <= p * p + q * q.
+Proof.
+  intros a b p q x y Hpos HT Hi HS Hle Hge.
+  set (h2 := a * a + b * b) in *.
+  set (S := a * q - b * p) in *.
+  set (R := a * y - b * x).
+  assert (L1 : h2 * (p * p + q * q) == h2 * h2 + S * S).
+  { setoid_replace (h2 * h2) with ((p * a + q * b) * (p * a + q * b)) by (rewrite HT; reflexivity). unfold h2, S. ring. }
+  assert (L2 : h2 * (x * x + y * y) == h2 * h2 + R * R).
+  { setoid_replace (h2 * h2) with ((x * a + y * b) * (x * a + y * b)) by (rewrite Hi; reflexivity). unfold h2, R. ring. }
+  assert (L3 : h2 * (x * p + y * q) == h2 * h2 + R * S).
+  { setoid_replace (h2 * h2) with ((x * a + y * b) * (p * a + q * b)) by (rewrite Hi, HT; reflexivity). unfold h2, R, S. ring. }
+  assert (L4 : a * p + b * q == h2) by (rewrite <- HT; ring).
+  assert (A : R * S <= S * S).
+  { assert (h2 * (x * p + y * q) <= h2 * (p * p + q * q)) by (apply Qmult_le_l; auto). lra. }
+  assert (B : 0 <= R * S).
+  { assert (h2 * (a * p + b * q) <= h2 * (x * p + y * q)) by (apply Qmult_le_l; auto). rewrite L4 in H. lra. }
+  assert (C : R * R <= S * S).
+  { destruct (Qlt_le_dec 0 S) as [Sp|Sn].
+    - assert (0 <= R) by nra. assert (R <= S) by nra. nra.
+    - assert (Sneg : S < 0). { destruct (Qeq_dec S 0) as [E|E]; [contradiction|]. lra. }
+      assert (R <= 0) by nra. assert (S <= R) by nra. nra. }
+  assert (h2 * (x * x + y * y) <= h2 * (p * p + q * q)) by lra.
+  apply Qmult_le_l in H; auto.
+Qed.
+
